@@ -1,0 +1,12 @@
+//go:build verif
+
+package ccittfax
+
+// Only compiled with the build tag "verif": access for the verification
+// harness, no behaviour of its own.
+
+func VerifTrWhiteBit(p Params) byte                         { return p.whiteBit() }
+func VerifTrGetPixel(p Params, lineData []byte, x int) byte { return p.getPixel(lineData, x) }
+func VerifTrEndOfRun(p Params, lineData []byte, startX int, runBit byte) int {
+	return p.endOfRun(lineData, startX, runBit)
+}
